@@ -21,11 +21,11 @@ theorem C04_transport_exact (p : Proto) (st : Status) (hp : p.carriesStatus = tr
 
 /-- Raw protocol, byte level: the REPLY frame packed by the server and unpacked by the caller has
     the same status, seq and type (within the protocol limits `Raw.WF`). -/
-theorem C04_raw_wire (reg : Registry) (limit cap0 : Nat) (m : Msg) (bs rest : Bytes) (sz : Nat)
+theorem C04_raw_wire (reg : Registry) (limit : Nat) (m : Msg) (bs rest : Bytes) (sz : Nat)
     (hw : Raw.WF reg m) (hp : Raw.pack reg limit m = .ok (bs, sz)) (hlt : bs.length < 4294967296) :
-    ∃ m', (Raw.unpack reg limit cap0 (bs ++ rest)).out = .ok m' rest ∧
+    ∃ m', (Raw.unpack reg limit (bs ++ rest)).out = .ok m' rest ∧
       m'.status = m.status ∧ m'.seq = m.seq ∧ m'.mtype = m.mtype := by
-  have := (Raw.unpack_pack reg limit cap0 m bs rest sz hw hp hlt).1
+  have := (Raw.unpack_pack reg limit m bs rest sz hw hp hlt).1
   exact ⟨{ m with size := sz }, by rw [this], rfl, rfl, rfl⟩
 
 /-- The protobuf websocket sub-protocol has no status field: whatever status the reply carries, the
